@@ -76,6 +76,23 @@ class Sink:
         pass
 
 
+class LenSink(Sink):
+    """a file_factory whose instances have a length (= bytes written so far): a fresh one is falsy"""
+
+    def __init__(self, filename, headers):
+        super().__init__(filename, headers)
+        self.n = 0
+
+    def write(self, data):
+        self.n += len(data)
+
+    async def awrite(self, data):
+        self.n += len(data)
+
+    def __len__(self):
+        return self.n
+
+
 def parse(mode, chunks, boundary, before_chunk=None, **kw):
     from baize.multipart_helper import parse_async_stream, parse_stream
     if mode == "sync":
@@ -110,12 +127,19 @@ def limits_case(ctx, form, mp, mm, cs, rng):
             chunks.insert(rng.randrange(len(chunks) + 1), b"")
     exp413 = nparts > mp or (mm is not None and mem > mm)
     got = {}
+    factory = LenSink if (nparts + len(chunks) + (mm or 0)) % 3 == 0 else UploadFile  # the sink class is the caller's choice
     for mode in ("sync", "async"):
         try:
-            items = parse(mode, chunks, form["boundary"], file_factory=UploadFile, max_form_parts=mp, max_form_memory_size=mm)
-            for _, v in items:
-                if not isinstance(v, str):
+            items = parse(mode, chunks, form["boundary"], file_factory=factory, max_form_parts=mp, max_form_memory_size=mm)
+            for (_, v), p in zip(items, form["parts"]):
+                if isinstance(v, str) != (p["filename"] is None):
+                    ctx.violation(f"file-part-and-field-confused|{factory.__name__}|{mode}", {"form": form, "max_parts": mp, "max_bytes": mm, "chunk": cs},
+                                  f"part {p['name']!r} filename={p['filename']!r} came back as {type(v).__name__}")
+                elif isinstance(v, LenSink) and len(v) != len(p["content"]):
+                    ctx.violation(f"sink-total-differs|{factory.__name__}|{mode}", {"form": form, "chunk": cs}, f"{len(v)} vs {len(p['content'])}")
+                if isinstance(v, UploadFile):
                     v.close()
+            ctx.mon("custom-sink" if factory is LenSink else "uploadfile-sink")
             got[mode] = False
         except RequestEntityTooLarge as e:
             got[mode] = True
